@@ -95,7 +95,7 @@ DoAddEnd(tk) ==
   /\ Do([name |-> "AddEnd", tk |-> tk, id |-> TicketId(pool, tk)])
   /\ UNCHANGED <<checked, blk>>
 
-Tickets == {"t1", "t2"}
+Tickets == IF MaxInflight = 1 THEN {"t1"} ELSE {"t1", "t2"}
 
 Next ==
   \/ \E id \in AddIds : DoAdd(id)
